@@ -413,6 +413,53 @@ def _chained(n: int, who: int, mode: int) -> bool:
     return result(ok, True)
 
 
+class ChainReplacer(ASTVisitor):
+    """visitor `who` of the chain replaces every lower-case Field by an upper-cased copy (a NEW node object); the others only record"""
+
+    def __init__(self, log, name, active, made):
+        self.log, self.name, self.active, self.made = log, name, active, made
+
+    def enter(self, node):
+        self.log.append(("enter", self.name, id(node)))
+        if self.active and isinstance(node, A.Field) and node.name.value.islower():
+            new = copy.copy(node)
+            new.name = A.Name(value=node.name.value.upper())
+            self.made[id(node)] = new
+            return new
+        return node
+
+    def leave(self, node):
+        self.log.append(("leave", self.name, id(node)))
+
+
+def _chained_replace(n: int, who: int, src: int) -> bool:
+    """
+    pre: 1 <= n <= 4 and 0 <= who < n and 0 <= src <= 2
+    post: _
+    """
+    N, W, S = concrete_int(n, 1, 4), concrete_int(who, 0, 3), concrete_int(src, 0, 2)
+    with untraced():
+        doc = parse(("{ a { b } c }", "{ a(x: 1) @d { ...F } } fragment F on T { b { c } }", "query Q { x: a y: b { c d } }")[S])
+        originals = [x for x in all_nodes(doc, []) if isinstance(x, A.Field)]
+        log, made = [], {}
+        ChainedVisitor(*[ChainReplacer(log, i, i == W, made) for i in range(N)]).visit(doc)
+        ok = len(made) == len(originals)
+        for o in originals:
+            r = made.get(id(o))
+            if r is None:
+                ok = False
+                continue
+            ent_o = [nm for ev, nm, nid in log if ev == "enter" and nid == id(o)]
+            ent_r = [nm for ev, nm, nid in log if ev == "enter" and nid == id(r)]
+            lea_o = [nm for ev, nm, nid in log if ev == "leave" and nid == id(o)]
+            lea_r = [nm for ev, nm, nid in log if ev == "leave" and nid == id(r)]
+            # visitors up to the replacing one see the original, the later ones the replacement; everybody leaves the replacement, in reverse order
+            ok = ok and ent_o == list(range(W + 1)) and ent_r == list(range(W + 1, N)) and lea_o == [] and lea_r == list(range(N))[::-1]
+        after = [x for x in all_nodes(doc, []) if isinstance(x, A.Field)]
+        ok = ok and len(after) == len(originals) and all(f.name.value.isupper() for f in after) and all(any(f is r for r in made.values()) for f in after)
+    return result(ok, True)
+
+
 class AllKinds(DispatchingVisitor):
     pass
 
@@ -452,6 +499,9 @@ CONDITIONS = [
          witness={"kind": 0, "inst": 0, "t1": 0, "a1": 1, "t2": 1, "a2": 2}),
     Cond(name="chained", fn=_chained, quick=60, thorough=60, bound="1..3 chained recording visitors, one of which returns None / raises SkipNode on Field nodes",
          symbolic={"n,who,mode": "choice"}, witness={"n": 2, "who": 0, "mode": 0}),
+    Cond(name="chained_replace", fn=_chained_replace, quick=60, thorough=60,
+         bound="1..4 chained visitors of which one (every position) replaces every Field by a new node, 3 documents: earlier visitors enter the original, later ones the replacement, all leave the replacement in reverse order, the document holds the replacements",
+         symbolic={"n": "choice", "who": "choice: replacing visitor", "src": "choice: document"}, witness={"n": 3, "who": 0, "src": 0}),
     Cond(name="dispatch_total", fn=_dispatch_total, quick=60, thorough=60, bound="every node kind reaches its enter_*/leave_* pair on DispatchingVisitor",
          symbolic={"kind": "choice"}, witness={"kind": 5}),
 ]
